@@ -8,7 +8,6 @@ import (
 	"verif/internal/prng"
 )
 
-
 type Path []interface{}
 
 func (p Path) String() string {
@@ -142,7 +141,9 @@ func Operators() []Op {
 		}},
 		{"one-element-list", func(cur interface{}, g *prng.R) (interface{}, bool) { return []interface{}{cur}, false }},
 		{"list-with-null", func(cur interface{}, g *prng.R) (interface{}, bool) { return []interface{}{cur, nil, cur}, false }},
-		{"relative-iri", func(cur interface{}, g *prng.R) (interface{}, bool) { return g.Str("/relative/path", "../x", "?q", "#frag", "//host/p"), false }},
+		{"relative-iri", func(cur interface{}, g *prng.R) (interface{}, bool) {
+			return g.Str("/relative/path", "../x", "?q", "#frag", "//host/p"), false
+		}},
 		{"lang-map", func(cur interface{}, g *prng.R) (interface{}, bool) {
 			return map[string]interface{}{"en": "x", "fr": g.Str("y", "")}, false
 		}},
@@ -224,7 +225,6 @@ func AllMutations(doc map[string]interface{}, depth int, g *prng.R, emit func(ma
 		}
 	}
 }
-
 
 // DeepCopy clones a JSON value.
 func DeepCopy(v interface{}) interface{} {
